@@ -482,7 +482,7 @@ def geo1d(tier):
 def geo2d(tier):
     """((H,W),(kH,kW),(sH,sW),(pH,pW),(dH,dW)) with a non-empty output"""
     out = []
-    HW = [(3, 4)] if tier == "quick" else [(3, 4), (4, 3), (2, 2)]
+    HW = [(3, 4)] if tier == "quick" else [(3, 4), (4, 3), (2, 2), (5, 4)]
     kmax = 2 if tier == "quick" else 3
     n = 0
     for (H, W) in HW:
